@@ -47,9 +47,10 @@ class C19(P.Property):
     level = "exploration"
     mode = "plain"
     tiers = {"quick": dict(runs=160000, budget_s=50), "thorough": dict(runs=4000000, budget_s=780)}
-    level_text = ("seeded exploration of operation histories (incl. failing operations placed inside slice assignments and "
-                  "close/reopen at arbitrary points) against a list reference model, checked after every step; a clean batch is "
-                  "evidence, not proof")
+    level_text = ("seeded exploration of operation histories (failing operations placed inside slice assignments, close/reopen and "
+                  "context-manager exit at arbitrary points, iteration interleaved with reads, a second array open at a sibling path, "
+                  "geometries beyond the quantifier's box in 6 % of runs) against a list reference model, checked after every step; a "
+                  "clean batch is evidence, not proof")
     level_note = ("trusted: the list model and the interpreter in sim/ssesim/props/c19.py, CPython's io stack; the restart is a "
                   "clean close+open (no torn writes: the property names none)")
     technique = "seeded operation histories with close/reopen against a list reference model (deterministic simulation, history-only)"
